@@ -861,7 +861,37 @@ Fixpoint check_groups (ops : list op) (calls : list ocall) (ms : list (list nat 
   | _, _ => false
   end.
 
+(* multi_call with a timeout T: the caller gets its answer no later than T (the first instant the
+   run queue was drained at / after the wheel-rounded deadline t_call + T); it cannot still be
+   waiting at the end of a scenario whose clock passed that deadline; a Timeout slot is never
+   produced before T *)
+Definition check_group_time (pts : list N) (calls : list ocall) (tmo : option N) (g : gres) (ids : list nat) : bool :=
+  match tmo, ids with
+  | Some T, c0 :: _ =>
+      match nth_error calls c0 with
+      | Some oc0 =>
+          let dl := first_ge pts (ceil_ms (oc_t0 oc0 + T)) in
+          match g with
+          | GOk rs t =>
+              (match dl with Some p => t <=? p | None => true end)
+              && forallb (fun r => match r with OTimeout => oc_t0 oc0 + T <=? t | _ => true end) rs
+          | GPending => match dl with Some _ => false | None => true end
+          | GErr => true
+          end
+      | None => true
+      end
+  | _, _ => true
+  end.
+
+Fixpoint check_groups_time (pts : list N) (calls : list ocall) (ms : list (list nat * option N))
+         (gs : list (gres * list nat)) : bool :=
+  match ms, gs with
+  | (_, tmo) :: ms', (g, ids) :: gs' => check_group_time pts calls tmo g ids && check_groups_time pts calls ms' gs'
+  | _, _ => true
+  end.
+
 Definition check_C09 (n : nat) (ops : list op) (o : obs) : bool :=
   let members := flat_map snd (o_groups o) in
-  check_calls ops (time_points ops 0) (o_alive o) (o_fwds o) members 0 (o_calls o)
-  && check_groups ops (o_calls o) (multi_ops ops) (o_groups o).
+  check_groups_time (time_points ops 0) (o_calls o) (multi_ops ops) (o_groups o)
+  && (check_calls ops (time_points ops 0) (o_alive o) (o_fwds o) members 0 (o_calls o)
+      && check_groups ops (o_calls o) (multi_ops ops) (o_groups o)).
